@@ -29,7 +29,7 @@ def cmp : Val → Bool
   | .timespan n => minInt ≤ n && n ≤ maxInt
   | .timestamp a b => (minInt ≤ a && a ≤ maxInt) && (minInt ≤ b && b ≤ maxInt)
   | .semver v => verOk v      -- as `NewVersion3` makes it: Go ints, parts that match the part patterns
-  | .vrange o rs => o.isEmpty && rs.all arOk   -- WITHOUT an original string (known finding C07-semver-range-original-key)
+  | .vrange _ rs => rs.all arOk   -- whatever string it was parsed from
   | .tname _ _ _ => false     -- no hash key at all: `EqComparable` only
   | .deferred _ _ => false
   | .param _ _ _ _ _ => false
